@@ -70,6 +70,106 @@ class Models:
             return VSlice(('tmp', st.new_id()), Form.const(0), Form.const(len(v.elems)), ('vals', v), v.ety)
         return None
 
+    def slice_iter(self, I, st, dty, s):
+        """iterator value over slice s: exact position for concrete short sequences, a symbolic position for slices of
+        at most 12 elements (their loops are unrolled exactly), position-free otherwise"""
+        if s.elem[0] == 'vals' and s.len.is_const() and s.off.is_const() and s.len.c <= 8 and s.base[0] == 'cfields':
+            return VOpaque(dty, 'iter', (s, 0))       # exact iteration over a concrete short sequence
+        lo, hi = st.num.rng(s.len)
+        if hi <= 12:
+            return VOpaque(dty, 'iter', (s, VInt(Form.const(0), 'usize')))
+        return VOpaque(dty, 'iter', (s,))
+
+    # ------------------------------------------------------------------ generic sequences
+    # Fallback for iterator adaptor chains that the tuned models ('iter', 'take', 'takewhile', 'enumerate', 'range') do not
+    # cover.  A sequence is (base, pos, end, ops): base = ('slice', VSlice) | ('range', VInt start); items number pos..end
+    # (VInt, usize) are still to come; ops are applied to each base item in order.
+    def to_seqs(self, I, st, it):
+        """list of (state, seq data) for an iterator value, or None"""
+        if not isinstance(it, VOpaque):
+            return None
+        z = VInt(Form.const(0), 'usize')
+        if it.tag == 'seq':
+            return [(st, it.data)]
+        if it.tag == 'iter':
+            sl = it.data[0]
+            pos = z
+            if len(it.data) == 2:
+                pos = it.data[1] if isinstance(it.data[1], VInt) else VInt(Form.const(it.data[1]), 'usize')
+            return [(st, (('slice', sl), pos, VInt(sl.len, 'usize'), ()))]
+        if it.tag == 'enumerate':
+            sl = it.data[0]
+            return [(st, (('slice', sl), z, VInt(sl.len, 'usize'), (('enumerate', z),)))]
+        if it.tag == 'take':
+            sl, n = it.data
+            if not isinstance(n, VInt):
+                return None
+            out = []
+            for s2 in I.assume(st.copy(), ('cmp', 'le', n.form, sl.len), True):
+                out.append((s2, (('slice', sl), z, VInt(n.form, 'usize'), ())))
+            for s2 in I.assume(st.copy(), ('cmp', 'gt', n.form, sl.len), True):
+                out.append((s2, (('slice', sl), z, VInt(sl.len, 'usize'), ())))
+            return out
+        if it.tag == 'range':
+            a, b = it.data
+            out = []
+            for s2 in I.assume(st.copy(), ('cmp', 'le', a.form, b.form), True):
+                out.append((s2, (('range', a), z, VInt(b.form.sub(a.form), 'usize'), ())))
+            for s2 in I.assume(st.copy(), ('cmp', 'gt', a.form, b.form), True):
+                out.append((s2, (('range', a), z, z, ())))
+            return out
+        return None
+
+    def seq_items(self, I, st, seq, k):
+        """item number k (a Form, pos <= k < end assumed by the caller) of the sequence: list of (state, item)"""
+        base, pos, end, ops = seq
+        rev = bool(ops) and ops[0][0] == 'rev'
+        if base[0] == 'slice':
+            sl = base[1]
+            idx = end.form.addc(-1).sub(k) if rev else k
+            item = VRef(('val', self.iter_elem(I, st, sl, idx)))
+        else:
+            start = base[1]
+            if rev:
+                raise AnalysisIncomplete('rev over a range')
+            item = VInt(start.form.add(k), start.ty)
+        cur = [(st, item)]
+        for op in ops:
+            if op[0] == 'rev':
+                continue
+            nxt = []
+            for (s2, v) in cur:
+                if op[0] == 'enumerate':
+                    nxt.append((s2, VTuple([VInt(k.sub(op[1].form), 'usize'), v])))
+                elif op[0] == 'copied':
+                    nxt.append((s2, self.deref(I, s2, v)))
+                elif op[0] == 'map':
+                    nxt.extend(I.call_closure(s2, op[1], [v]))
+                else:
+                    raise AnalysisIncomplete(f"sequence op {op[0]}")
+            cur = nxt
+        return cur
+
+    def seq_unroll(self, I, st, seq, init, step, limit=12):
+        """fold step(state, acc, item) -> [(state, acc)] over the remaining items; exact unrolling, bounded"""
+        base, pos, end, ops = seq
+        rem = end.form.sub(pos.form)
+        lo, hi = st.num.rng(rem)
+        if hi > limit:
+            raise AnalysisIncomplete(f"iteration over up to {hi} items")
+        out = []
+        for n in range(max(lo, 0), hi + 1):
+            for sk in I.assume(st.copy(), ('cmp', 'eq', rem, Form.const(n)), True):
+                cur = [(sk, init)]
+                for i in range(n):
+                    nxt = []
+                    for (s2, acc) in cur:
+                        for (s3, item) in self.seq_items(I, s2, seq, pos.form.addc(i)):
+                            nxt.extend(step(s3, acc, item))
+                    cur = nxt
+                out.extend(cur)
+        return out
+
     def pcall(self, I, st, body, bbi, t, name, ok, detail=''):
         return I.oblige('P-call', body['def'], bbi, name, t['sp'], ok, st, detail)
 
@@ -87,7 +187,16 @@ class Models:
         ctx = Ctx(I, st, c, args, t, body, bbi, fid, dty)
         if h is None:
             k = c.get('key') or decl
+            if c.get('extbody') and k in I.facts.bodies:
+                # a small library combinator whose MIR the extractor dumped: analyse it like local code
+                r = I.call_ext_body(st, k, args)
+                if r is not None:
+                    return r
             I.unmodelled[k] = I.unmodelled.get(k, 0) + 1
+            if t.get('target') is None:
+                # an unmodelled external that never returns (panic / abort helpers): reaching it is a panic
+                self.pcall(I, st, body, bbi, t, f"call of the diverging function {decl}", False, 'reachable')
+                return []
             return [(st, I.top(st, dty, 'ext', assume_inv=False) if dty else VOpaque(None))]
         r = h(ctx)
         if r is None:
@@ -100,7 +209,7 @@ class Models:
         if a.tag == 'stackvec':
             ln = I.vjoin(st, VInt(a.data, 'usize'), VInt(b.data, 'usize'), sa, sb, widen, chg)
             return VOpaque(a.ty, 'stackvec', ln.form)
-        if a.tag in ('iter', 'enumerate', 'take', 'takewhile', 'range'):
+        if a.tag in ('iter', 'enumerate', 'take', 'takewhile', 'range', 'seq'):
             if chg is not None:
                 chg[0] = chg[0] or False
             return VOpaque(a.ty, a.tag, self._join_data(I, st, a.data, b.data, sa, sb, widen, chg))
@@ -309,12 +418,12 @@ class Models:
         M = self
 
         # ---- integers
-        @regp(r'^core::num::<impl i\d+>::is_negative$')
+        @regp(r'^core::num::<impl i(?:\d+|size)>::is_negative$')
         def is_negative(c):
             a = c.args[0]
             return c.I.mkbool(c.st, ('cmp', 'lt', a.form, Form.const(0)))
 
-        @regp(r'^core::num::<impl [iu]\d+>::checked_(add|sub)$')
+        @regp(r'^core::num::<impl [iu](?:\d+|size)>::checked_(add|sub)$')
         def checked(c):
             a, b = c.args
             ity = a.ty
@@ -330,7 +439,123 @@ class Models:
                 out.append((s2, M.none(c.dty)))
             return out
 
-        @regp(r'^core::num::<impl i\d+>::abs$')
+        def three_way(c, f, ity, below, inr, above):
+            """case split of the mathematical result f against the range of ity"""
+            lo, hi = c.I.irange(ity)
+            out = []
+            for s2 in c.I.assume(c.st.copy(), ('and', ('cmp', 'ge', f, Form.const(lo)), ('cmp', 'le', f, Form.const(hi))), True):
+                out.append((s2, inr(s2)))
+            for s2 in c.I.assume(c.st.copy(), ('cmp', 'lt', f, Form.const(lo)), True):
+                out.append((s2, below(s2)))
+            for s2 in c.I.assume(c.st.copy(), ('cmp', 'gt', f, Form.const(hi)), True):
+                out.append((s2, above(s2)))
+            return out
+
+        def arith_form(c, name):
+            a, b = c.args
+            op = {'add': 'Add', 'sub': 'Sub', 'mul': 'Mul'}[name]
+            return c.I.int_binop(c.st, op, a, b, a.ty)
+
+        @regp(r'^core::num::<impl [iu](?:\d+|size)>::checked_mul$')
+        def checked_mul(c):
+            a = c.args[0]
+            f = arith_form(c, 'mul')
+            return three_way(c, f, a.ty, lambda s2: M.none(c.dty), lambda s2: M.some(c.dty, VInt(f, a.ty)), lambda s2: M.none(c.dty))
+
+        @regp(r'^core::num::<impl [iu](?:\d+|size)>::saturating_(add|sub|mul)$')
+        def saturating(c):
+            a = c.args[0]
+            name = c.c['decl'].rsplit('_', 1)[1]
+            f = arith_form(c, name)
+            lo, hi = c.I.irange(a.ty)
+            return three_way(c, f, a.ty, lambda s2: c.I.cint(lo, a.ty), lambda s2: VInt(f, a.ty), lambda s2: c.I.cint(hi, a.ty))
+
+        @regp(r'^core::num::<impl [iu](?:\d+|size)>::wrapping_(add|sub|mul)$')
+        def wrapping(c):
+            a = c.args[0]
+            name = c.c['decl'].rsplit('_', 1)[1]
+            f = arith_form(c, name)
+            return c.I.wrap_or_keep(c.st, f, a.ty)
+
+        @regp(r'^core::num::<impl [iu](?:\d+|size)>::overflowing_(add|sub|mul)$')
+        def overflowing(c):
+            a = c.args[0]
+            name = c.c['decl'].rsplit('_', 1)[1]
+            f = arith_form(c, name)
+            return three_way(c, f, a.ty,
+                             lambda s2: VTuple([c.I.wrap_or_keep(s2, f, a.ty), VBool(True)]),
+                             lambda s2: VTuple([VInt(f, a.ty), VBool(False)]),
+                             lambda s2: VTuple([c.I.wrap_or_keep(s2, f, a.ty), VBool(True)]))
+
+        @regp(r'^core::num::<impl i(?:\d+|size)>::(checked_neg|wrapping_neg)$')
+        def neg_ops(c):
+            a = c.args[0]
+            f = a.form.neg()
+            if c.c['decl'].endswith('wrapping_neg'):
+                return c.I.wrap_or_keep(c.st, f, a.ty)
+            return three_way(c, f, a.ty, lambda s2: M.none(c.dty), lambda s2: M.some(c.dty, VInt(f, a.ty)), lambda s2: M.none(c.dty))
+
+        @regp(r'^core::num::<impl [iu](?:\d+|size)>::checked_(div|rem)$')
+        def checked_div(c):
+            a, b = c.args
+            want_q = c.c['decl'].endswith('div')
+            out = []
+            lo, hi = c.I.irange(a.ty)
+            for s2 in c.I.assume(c.st.copy(), ('cmp', 'eq', b.form, Form.const(0)), True):
+                out.append((s2, M.none(c.dty)))
+            for s2 in c.I.assume(c.st.copy(), ('cmp', 'ne', b.form, Form.const(0)), True):
+                if lo < 0:
+                    # MIN / -1 overflows
+                    for s3 in c.I.assume(s2.copy(), ('and', ('cmp', 'eq', a.form, Form.const(lo)), ('cmp', 'eq', b.form, Form.const(-1))), True):
+                        out.append((s3, M.none(c.dty)))
+                    rest = c.I.assume(s2.copy(), ('and', ('cmp', 'eq', a.form, Form.const(lo)), ('cmp', 'eq', b.form, Form.const(-1))), False)
+                else:
+                    rest = [s2]
+                for s3 in rest:
+                    f = c.I.int_binop(s3, 'Div' if want_q else 'Rem', a, b, a.ty)
+                    out.append((s3, M.some(c.dty, VInt(f, a.ty))))
+            return out
+
+        @regp(r'^core::num::<impl [iu](?:\d+|size)>::abs_diff$')
+        def abs_diff(c):
+            a, b = c.args
+            uty = 'u' + a.ty[1:]
+            out = []
+            for s2 in c.I.assume(c.st.copy(), ('cmp', 'ge', a.form, b.form), True):
+                out.append((s2, VInt(a.form.sub(b.form), uty)))
+            for s2 in c.I.assume(c.st.copy(), ('cmp', 'lt', a.form, b.form), True):
+                out.append((s2, VInt(b.form.sub(a.form), uty)))
+            return out
+
+        @regp(r'^(std::cmp::Ord::(min|max)|std::cmp::(min|max)::<[iu]\d+>|std::cmp::(min|max))$')
+        def minmax(c):
+            a, b = c.args
+            if not (isinstance(a, VInt) and isinstance(b, VInt)):
+                return c.I.top(c.st, c.dty, 'minmax', assume_inv=False)
+            is_min = c.c['decl'].rsplit('::', 1)[1].startswith('min') or '::min::' in c.c['decl']
+            out = []
+            for s2 in c.I.assume(c.st.copy(), ('cmp', 'le', a.form, b.form), True):
+                out.append((s2, a if is_min else b))
+            for s2 in c.I.assume(c.st.copy(), ('cmp', 'gt', a.form, b.form), True):
+                out.append((s2, b if is_min else a))
+            return out
+
+        @reg('std::cmp::Ord::clamp')
+        def clamp(c):
+            x, lo, hi = c.args
+            if not all(isinstance(v, VInt) for v in (x, lo, hi)):
+                return c.I.top(c.st, c.dty, 'clamp', assume_inv=False)
+            M.pcall(c.I, c.st, c.body, c.bbi, c.t, 'clamp: min > max', c.st.num.le0(lo.form.sub(hi.form)), f"min {lo.form!r}, max {hi.form!r}")
+            out = []
+            for s2 in c.I.assume(c.st.copy(), ('cmp', 'lt', x.form, lo.form), True):
+                out.append((s2, lo))
+            for s2 in c.I.assume(c.st.copy(), ('cmp', 'gt', x.form, hi.form), True):
+                out.append((s2, hi))
+            for s2 in c.I.assume(c.st.copy(), ('and', ('cmp', 'ge', x.form, lo.form), ('cmp', 'le', x.form, hi.form)), True):
+                out.append((s2, x))
+            return out
+
+        @regp(r'^core::num::<impl i(?:\d+|size)>::abs$')
         def iabs(c):
             a = c.args[0]
             lo, hi = c.I.irange(a.ty)
@@ -344,7 +569,7 @@ class Models:
                 out.append((s2, c.I.wrap_or_keep(s2, a.form.neg(), a.ty)))
             return out
 
-        @regp(r'^core::num::<impl i\d+>::signum$')
+        @regp(r'^core::num::<impl i(?:\d+|size)>::signum$')
         def signum(c):
             a = c.args[0]
             out = []
@@ -356,7 +581,7 @@ class Models:
                 out.append((s2, c.I.cint(-1, a.ty)))
             return out
 
-        @regp(r'^core::num::<impl i\d+>::(div_euclid|rem_euclid)$')
+        @regp(r'^core::num::<impl [iu](?:\d+|size)>::(div_euclid|rem_euclid)$')
         def euclid(c):
             a, b = c.args
             lo, hi = c.st.num.rng(b.form)
@@ -386,7 +611,7 @@ class Models:
                     out.append((s3, VInt(qf.addc(-1) if want_q else rf.addc(k), a.ty)))
             return out
 
-        @regp(r'^core::num::<impl i\d+>::unsigned_abs$')
+        @regp(r'^core::num::<impl i(?:\d+|size)>::unsigned_abs$')
         def uabs(c):
             a = c.args[0]
             uty = 'u' + a.ty[1:]
@@ -613,7 +838,23 @@ class Models:
             fw = c.c.get('forward')
             if fw:
                 return c.I.call_local(c.st, fw, [c.args[0]])
+            a = c.args[0]
+            if isinstance(a, VInt) and c.dty and c.I.facts.int_range(c.dty) is not None and c.dty != 'bool':
+                slo, shi = c.I.irange(a.ty)
+                dlo, dhi = c.I.irange(c.dty)
+                if dlo <= slo and shi <= dhi:
+                    return VInt(a.form, c.dty)       # core's lossless integer conversions
             return c.I.top(c.st, c.dty, 'into', assume_inv=False)
+
+        @reg('std::default::Default::default')
+        def default(c):
+            if c.dty == 'bool':
+                return VBool(False)
+            if c.dty and c.I.facts.int_range(c.dty) is not None:
+                return c.I.cint(0, c.dty)
+            k = c.c.get('key') or 'Default::default'
+            c.I.unmodelled[k] = c.I.unmodelled.get(k, 0) + 1
+            return c.I.top(c.st, c.dty, 'default', assume_inv=False)
 
         @reg('std::convert::AsRef::as_ref')
         def as_ref(c):
@@ -633,6 +874,10 @@ class Models:
                 if t.get('def', '').endswith('ops::Range'):
                     s, e = a.variants[0]
                     return VOpaque(c.dty, 'range', (s, e))
+            if c.dty and c.dty.startswith('std::slice::Iter<'):
+                sl = M.as_slice(c.I, c.st, a)
+                if sl is not None:
+                    return M.slice_iter(c.I, c.st, c.dty, sl)
             return a
 
         # ---- slices / strs
@@ -661,11 +906,110 @@ class Models:
                 out.append((s2, M.none(c.dty)))
             return out
 
+        @reg('core::slice::<impl [T]>::contains', 'core::slice::<impl [T]>::ends_with')
+        def spure(c):
+            return c.I.unknown_bool()
+
+        @reg('core::slice::<impl [T]>::strip_prefix', 'core::slice::<impl [T]>::strip_suffix')
+        def sstrip(c):
+            s = M.as_slice(c.I, c.st, c.args[0])
+            pat = M.as_slice(c.I, c.st, c.args[1])
+            if s is None or pat is None:
+                return c.I.top(c.st, c.dty, 'strip', assume_inv=False)
+            out = [(c.st.copy(), M.none(c.dty))]
+            for s2 in c.I.assume(c.st.copy(), ('cmp', 'le', pat.len, s.len), True):
+                off = s.off.add(pat.len) if c.c['decl'].endswith('strip_prefix') else s.off
+                out.append((s2, M.some(c.dty, VSlice(s.base, off, s.len.sub(pat.len), s.elem, s.ety))))
+            return out
+
+        @reg('std::mem::swap')
+        def mswap(c):
+            a, b = c.args
+            if not (isinstance(a, VRef) and isinstance(b, VRef)):
+                raise AnalysisIncomplete('mem::swap on non-references')
+            va = c.I.load(c.st, a.root, a.path)
+            vb = c.I.load(c.st, b.root, b.path)
+            c.I.store(c.st, a.root, a.path, vb)
+            c.I.store(c.st, b.root, b.path, va)
+            return UNIT
+
+        @regp(r'^core::num::<impl [iu](?:\d+|size)>::pow$')
+        def ipow(c):
+            a, e = c.args
+            st = c.st
+            la, ha = st.num.rng(a.form)
+            le, he = st.num.rng(e.form)
+            lo, hi = c.I.irange(a.ty)
+            if la >= 0 and he <= 64:
+                rl, rh = la ** le, ha ** he
+                if ha >= 1 and la == 0:
+                    rl = 0
+                M.pcall(c.I, st, c.body, c.bbi, c.t, 'pow overflows', rh <= hi, f"base in [{la}, {ha}], exponent in [{le}, {he}]")
+                if la == ha and le == he:
+                    return c.I.cint(min(rl, hi), a.ty)
+                return c.I.fresh_int(st, a.ty, 'pow', max(rl, lo), min(rh, hi))
+            M.pcall(c.I, st, c.body, c.bbi, c.t, 'pow overflows', False, f"base in [{la}, {ha}], exponent in [{le}, {he}]")
+            return c.I.fresh_int(st, a.ty, 'pow')
+
+        @reg('core::slice::<impl [T]>::last')
+        def slast(c):
+            s = M.as_slice(c.I, c.st, c.args[0])
+            out = []
+            for s2 in c.I.assume(c.st.copy(), ('cmp', 'ge', s.len, Form.const(1)), True):
+                e = M.iter_elem(c.I, s2, s, s.len.addc(-1))
+                out.append((s2, M.some(c.dty, VRef(('val', e)))))
+            for s2 in c.I.assume(c.st.copy(), ('cmp', 'eq', s.len, Form.const(0)), True):
+                out.append((s2, M.none(c.dty)))
+            return out
+
+        @reg('core::slice::<impl [T]>::split_first', 'core::slice::<impl [T]>::split_last')
+        def ssplit1(c):
+            s = M.as_slice(c.I, c.st, c.args[0])
+            first = c.c['decl'].endswith('split_first')
+            out = []
+            for s2 in c.I.assume(c.st.copy(), ('cmp', 'ge', s.len, Form.const(1)), True):
+                if first:
+                    e = M.iter_elem(c.I, s2, s, Form.const(0))
+                    rest = VSlice(s.base, s.off.addc(1), s.len.addc(-1), s.elem, s.ety)
+                else:
+                    e = M.iter_elem(c.I, s2, s, s.len.addc(-1))
+                    rest = VSlice(s.base, s.off, s.len.addc(-1), s.elem, s.ety)
+                out.append((s2, M.some(c.dty, VTuple([VRef(('val', e)), rest]))))
+            for s2 in c.I.assume(c.st.copy(), ('cmp', 'eq', s.len, Form.const(0)), True):
+                out.append((s2, M.none(c.dty)))
+            return out
+
+        @reg('core::slice::<impl [T]>::split_at')
+        def ssplit_at(c):
+            s = M.as_slice(c.I, c.st, c.args[0])
+            i = c.args[1]
+            st = c.st
+            ok = st.num.le0(i.form.sub(s.len))
+            M.pcall(c.I, st, c.body, c.bbi, c.t, 'split_at: mid > len', ok, f"mid {i.form!r} in {list(st.num.rng(i.form))}, len {s.len!r} in {list(st.num.rng(s.len))}")
+            outs = c.I.assume(st, ('cmp', 'le', i.form, s.len), True)
+            return [(s2, VTuple([VSlice(s.base, s.off, i.form, s.elem, s.ety), VSlice(s.base, s.off.add(i.form), s.len.sub(i.form), s.elem, s.ety)])) for s2 in outs]
+
         @reg('core::slice::<impl [T]>::get')
         def sget(c):
             s = M.as_slice(c.I, c.st, c.args[0])
             i = c.args[1]
             out = []
+            if isinstance(i, VAdt):
+                nm = M.facts.types.get(i.ty, {}).get('def', '')
+                a = b = None
+                if nm.endswith('ops::RangeFrom'):
+                    a, b = i.variants[0][0].form, s.len
+                elif nm.endswith('ops::RangeTo'):
+                    a, b = Form.const(0), i.variants[0][0].form
+                elif nm.endswith('ops::Range'):
+                    a, b = i.variants[0][0].form, i.variants[0][1].form
+                if a is not None:
+                    valid = ('and', ('cmp', 'le', a, b), ('cmp', 'le', b, s.len))
+                    for s2 in c.I.assume(c.st.copy(), valid, True):
+                        out.append((s2, M.some(c.dty, VSlice(s.base, s.off.add(a), b.sub(a), s.elem, s.ety))))
+                    for s2 in c.I.assume(c.st.copy(), valid, False):
+                        out.append((s2, M.none(c.dty)))
+                    return out
             if not isinstance(i, VInt):
                 return c.I.top(c.st, c.dty, 'get', assume_inv=False)
             for s2 in c.I.assume(c.st.copy(), ('cmp', 'lt', i.form, s.len), True):
@@ -797,9 +1141,19 @@ class Models:
         @reg('std::iter::Iterator::take')
         def itake(c):
             it, n = c.args
-            if isinstance(it, VOpaque) and it.tag == 'iter':
+            if isinstance(it, VOpaque) and it.tag == 'iter' and (len(it.data) == 1 or (isinstance(it.data[1], VInt) and it.data[1].form.is_const() and it.data[1].form.c == 0)):
                 return VOpaque(c.dty, 'take', (it.data[0], n))
-            raise AnalysisIncomplete("take on non-slice iterator")
+            seqs = M.to_seqs(c.I, c.st, it)
+            if seqs is None or not isinstance(n, VInt):
+                raise AnalysisIncomplete("take on non-slice iterator")
+            out = []
+            for (s2, (base, pos, end, ops)) in seqs:
+                lim = pos.form.add(n.form)
+                for s3 in c.I.assume(s2.copy(), ('cmp', 'le', lim, end.form), True):
+                    out.append((s3, VOpaque(c.dty, 'seq', (base, pos, VInt(lim, 'usize'), ops))))
+                for s3 in c.I.assume(s2.copy(), ('cmp', 'gt', lim, end.form), True):
+                    out.append((s3, VOpaque(c.dty, 'seq', (base, pos, end, ops))))
+            return out
 
         @reg('std::iter::Iterator::take_while')
         def itakewhile(c):
@@ -811,9 +1165,65 @@ class Models:
         @reg('std::iter::Iterator::enumerate')
         def ienum(c):
             it = c.args[0]
-            if isinstance(it, VOpaque) and it.tag == 'iter':
+            if isinstance(it, VOpaque) and it.tag == 'iter' and len(it.data) == 1:
                 return VOpaque(c.dty, 'enumerate', (it.data[0],))
-            raise AnalysisIncomplete("enumerate on unknown iterator")
+            seqs = M.to_seqs(c.I, c.st, it)
+            if seqs is None:
+                raise AnalysisIncomplete("enumerate on unknown iterator")
+            return [(s2, VOpaque(c.dty, 'seq', (base, pos, end, ops + (('enumerate', pos),)))) for (s2, (base, pos, end, ops)) in seqs]
+
+        @reg('std::iter::Iterator::map', 'std::iter::Iterator::copied', 'std::iter::Iterator::cloned', 'std::iter::Iterator::rev', 'std::iter::Iterator::skip')
+        def iadapt(c):
+            it = c.args[0]
+            name = c.c['decl'].rsplit('::', 1)[1]
+            seqs = M.to_seqs(c.I, c.st, it)
+            if seqs is None:
+                raise AnalysisIncomplete(f"{name} on unknown iterator {it!r}")
+            out = []
+            for (s2, (base, pos, end, ops)) in seqs:
+                if name == 'map':
+                    out.append((s2, VOpaque(c.dty, 'seq', (base, pos, end, ops + (('map', c.args[1]),)))))
+                elif name in ('copied', 'cloned'):
+                    out.append((s2, VOpaque(c.dty, 'seq', (base, pos, end, ops + (('copied',),)))))
+                elif name == 'rev':
+                    if ops or not (pos.form.is_const() and pos.form.c == 0):
+                        raise AnalysisIncomplete('rev after other adaptors')
+                    out.append((s2, VOpaque(c.dty, 'seq', (base, pos, end, (('rev',),)))))
+                else:
+                    n = c.args[1]
+                    np = pos.form.add(n.form)
+                    for s3 in c.I.assume(s2.copy(), ('cmp', 'le', np, end.form), True):
+                        out.append((s3, VOpaque(c.dty, 'seq', (base, VInt(np, 'usize'), end, ops))))
+                    for s3 in c.I.assume(s2.copy(), ('cmp', 'gt', np, end.form), True):
+                        out.append((s3, VOpaque(c.dty, 'seq', (base, end, end, ops))))
+            return out
+
+        @reg('std::iter::Iterator::sum', 'std::iter::Iterator::for_each')
+        def isum(c):
+            it = c.args[0]
+            name = c.c['decl'].rsplit('::', 1)[1]
+            seqs = M.to_seqs(c.I, c.st, it)
+            if seqs is None:
+                raise AnalysisIncomplete(f"{name} on unknown iterator {it!r}")
+            out = []
+            for (s2, seq) in seqs:
+                if name == 'sum':
+                    ity = c.dty
+
+                    def step(s3, acc, item):
+                        v = M.deref(c.I, s3, item) if isinstance(item, VRef) else item
+                        if not isinstance(v, VInt):
+                            raise AnalysisIncomplete('sum of non-integers')
+                        f = acc.form.add(v.form)
+                        lo, hi = c.I.irange(ity)
+                        a, b = s3.num.rng(f)
+                        M.pcall(c.I, s3, c.body, c.bbi, c.t, 'sum overflows', lo <= a and b <= hi, f"partial sum in [{a}, {b}]")
+                        return [(s3, VInt(f, ity))]
+                    out.extend(M.seq_unroll(c.I, s2, seq, c.I.cint(0, ity), step))
+                else:
+                    f = c.args[1]
+                    out.extend((s3, UNIT) for (s3, _) in M.seq_unroll(c.I, s2, seq, UNIT, lambda s3, acc, item: [(s4, UNIT) for (s4, _) in c.I.call_closure(s3, f, [item])]))
+            return out
 
         @reg('std::iter::Iterator::count')
         def icount(c):
@@ -825,6 +1235,35 @@ class Models:
                 else:
                     sl, cap = inner.data
                 st = c.st
+                if cap is None and sl.elem[0] == 'vals' and sl.len.is_const() and sl.off.is_const() and sl.len.c <= 16:
+                    # a short constant table: evaluate the predicate on each entry in turn (exact)
+                    depth = M.closure_arg_depth(c.I, st, f)
+                    out = []
+                    cur = [st]
+                    for i in range(sl.len.c):
+                        nxt = []
+                        for s2 in cur:
+                            arg = c.I.slice_elem(s2, sl, Form.const(i))
+                            for _ in range(depth):
+                                arg = VRef(('val', arg))
+                            for (s3, r) in c.I.call_closure(s2, f, [arg]):
+                                if not isinstance(r, VBool):
+                                    raise AnalysisIncomplete('take_while predicate does not return a bool')
+                                if r.val is True:
+                                    nxt.append(s3)
+                                elif r.val is False:
+                                    out.append((s3, c.I.cint(i, 'usize')))
+                                else:
+                                    p = c.I.bool_pred(r)
+                                    if p is None:
+                                        nxt.append(s3.copy())
+                                        out.append((s3, c.I.cint(i, 'usize')))
+                                    else:
+                                        nxt.extend(c.I.assume(s3.copy(), p, True))
+                                        out.extend((s4, c.I.cint(i, 'usize')) for s4 in c.I.assume(s3.copy(), p, False))
+                        cur = nxt
+                    out.extend((s2, c.I.cint(sl.len.c, 'usize')) for s2 in cur)
+                    return out
                 n = c.I.fresh_int(st, 'usize', 'count', 0)
                 outs = c.I.assume(st, ('cmp', 'le', n.form, sl.len), True)
                 if cap is not None and isinstance(cap, VInt):
@@ -842,7 +1281,54 @@ class Models:
                     capv = cl_ if cl_ == ch_ else None
                 SYMTAB.syms[sym].data = ('count', sl.base, sl.off.key(), cls, M.last_class_set, capv)
                 return [(s2, n) for s2 in outs]
-            raise AnalysisIncomplete("count on unknown iterator")
+            seqs = M.to_seqs(c.I, c.st, it)
+            if seqs is None:
+                raise AnalysisIncomplete("count on unknown iterator")
+            return [(s2, VInt(end.form.sub(pos.form), 'usize')) for (s2, (base, pos, end, ops)) in seqs]
+
+        @reg('std::iter::Iterator::any', 'std::iter::Iterator::all', 'std::iter::Iterator::position')
+        def anyall(c):
+            itref, f = c.args
+            it = M.deref(c.I, c.st, itref)
+            seqs = M.to_seqs(c.I, c.st, it)
+            if seqs is None:
+                raise AnalysisIncomplete(f"any/all/position on {it!r}")
+            name = c.c['decl'].rsplit('::', 1)[1]
+            st = c.st
+            hit, miss = [], []          # (state, index) in which the predicate holds / fails for the item at that index
+            cands = []
+            for (s2, seq) in seqs:
+                idx = c.I.fresh_int(s2, 'usize', 'it_i', 0)
+                for s3 in c.I.assume(s2.copy(), ('and', ('cmp', 'ge', idx.form, seq[1].form), ('cmp', 'lt', idx.form, seq[2].form)), True):
+                    for (s4, item) in M.seq_items(c.I, s3, seq, idx.form):
+                        cands.append((s4, item, VInt(idx.form.sub(seq[1].form), 'usize')))
+            for (s3, arg, rel) in cands:
+                for (s4, r) in c.I.call_closure(s3, f, [arg]):
+                    if not isinstance(r, VBool):
+                        raise AnalysisIncomplete('predicate does not return a bool')
+                    if r.val is True:
+                        hit.append((s4, rel))
+                    elif r.val is False:
+                        miss.append((s4, rel))
+                    else:
+                        p = c.I.bool_pred(r)
+                        if p is None:
+                            hit.append((s4.copy(), rel))
+                            miss.append((s4, rel))
+                        else:
+                            hit.extend((s5, rel) for s5 in c.I.assume(s4.copy(), p, True))
+                            miss.extend((s5, rel) for s5 in c.I.assume(s4.copy(), p, False))
+            out = []
+            if name == 'position':
+                out.append((st.copy(), M.none(c.dty)))                   # no item satisfies it (or there is none)
+                out.extend((s4, M.some(c.dty, rel)) for (s4, rel) in hit)
+            elif name == 'any':
+                out.append((st.copy(), VBool(False)))
+                out.extend((s4, VBool(True)) for (s4, _) in hit)
+            else:
+                out.append((st.copy(), VBool(True)))
+                out.extend((s4, VBool(False)) for (s4, _) in miss)
+            return out
 
         @reg('std::iter::Iterator::fold')
         def ifold(c):
@@ -866,14 +1352,20 @@ class Models:
                             cur = nxt
                         out.extend(cur)
                 return out
-            raise AnalysisIncomplete("fold on unknown iterator")
+            seqs = M.to_seqs(c.I, c.st, it)
+            if seqs is None:
+                raise AnalysisIncomplete("fold on unknown iterator")
+            out = []
+            for (s2, seq) in seqs:
+                out.extend(M.seq_unroll(c.I, s2, seq, init, lambda s3, acc, item: c.I.call_closure(s3, f, [acc, item])))
+            return out
 
         @reg('std::iter::Iterator::next')
         def inext(c):
             itref = c.args[0]
             it = M.deref(c.I, c.st, itref)
             st = c.st
-            if isinstance(it, VOpaque) and it.tag == 'iter' and len(it.data) == 2:
+            if isinstance(it, VOpaque) and it.tag == 'iter' and len(it.data) == 2 and isinstance(it.data[1], int):
                 sl, pos = it.data
                 if pos >= sl.len.c:
                     return M.none(c.dty)
@@ -881,6 +1373,16 @@ class Models:
                 if isinstance(itref, VRef):
                     c.I.store(st, itref.root, itref.path, VOpaque(it.ty, 'iter', (sl, pos + 1)))
                 return M.some(c.dty, VRef(('val', e)))
+            if isinstance(it, VOpaque) and it.tag == 'iter' and len(it.data) == 2 and isinstance(it.data[1], VInt) and isinstance(itref, VRef):
+                sl, pos = it.data
+                out = []
+                for s2 in c.I.assume(st.copy(), ('cmp', 'ge', pos.form, sl.len), True):
+                    out.append((s2, M.none(c.dty)))
+                for s3 in c.I.assume(st.copy(), ('cmp', 'lt', pos.form, sl.len), True):
+                    e = M.iter_elem(c.I, s3, sl, pos.form)
+                    c.I.store(s3, itref.root, itref.path, VOpaque(it.ty, 'iter', (sl, VInt(pos.form.addc(1), 'usize'))))
+                    out.append((s3, M.some(c.dty, VRef(('val', e)))))
+                return out
             if isinstance(it, VOpaque) and it.tag == 'iter':
                 sl = it.data[0]
                 out = [(st.copy(), M.none(c.dty))]
@@ -921,6 +1423,16 @@ class Models:
                 v = c.I.fresh_int(s2, s_.ty, 'rng_i')
                 for s3 in c.I.assume(s2, ('and', ('cmp', 'ge', v.form, s_.form), ('cmp', 'lt', v.form, e_.form)), True):
                     out.append((s3, M.some(c.dty, v)))
+                return out
+            if isinstance(it, VOpaque) and it.tag == 'seq' and isinstance(itref, VRef):
+                base, pos, end, ops = it.data
+                out = []
+                for s2 in c.I.assume(st.copy(), ('cmp', 'ge', pos.form, end.form), True):
+                    out.append((s2, M.none(c.dty)))
+                for s3 in c.I.assume(st.copy(), ('cmp', 'lt', pos.form, end.form), True):
+                    for (s4, item) in M.seq_items(c.I, s3, it.data, pos.form):
+                        c.I.store(s4, itref.root, itref.path, VOpaque(it.ty, 'seq', (base, VInt(pos.form.addc(1), 'usize'), end, ops)))
+                        out.append((s4, M.some(c.dty, item)))
                 return out
             raise AnalysisIncomplete(f"next on {it!r}")
 
@@ -1207,6 +1719,25 @@ class Models:
                 elif 97 <= b <= 122:
                     alts.add(b - 32)
             self.pin_byte(I, st, s, i, alts)
+
+    def closure_arg_depth(self, I, st, f):
+        """number of reference layers of the (single) argument of closure value f"""
+        cl = f
+        if isinstance(cl, VRef):
+            cl = I.load(st, cl.root, cl.path)
+        if not isinstance(cl, VClosure):
+            raise AnalysisIncomplete('predicate is not a closure')
+        body = self.facts.bodies.get(cl.key)
+        if body is None or body['argc'] < 2:
+            raise AnalysisIncomplete('predicate closure body missing')
+        aty = body['locals'][2]['ty']
+        depth = 0
+        while aty.startswith('&'):
+            depth += 1
+            aty = aty[1:].lstrip()
+            if aty.startswith("'"):
+                aty = aty.split(' ', 1)[1] if ' ' in aty else aty
+        return depth
 
     def closure_byte_class(self, I, st, f):
         """(lo, hi) hull of the bytes for which the predicate closure can return true, or None"""
